@@ -137,6 +137,35 @@ EXTRA = {
 for pid, (t, x) in EXTRA.items():
     CLAIMED[pid]['technique'] += t
     CLAIMED[pid]['text'] += x
+
+# Round-6 additions (DESIGN.md §12.6) and twin round (§14.5)
+EXTRA2 = {
+ 'C01': ('; gate binding to the input\'s return-after-error flag on every credit below the transfers (shared with C04-R1)',
+         ' A bounced transfer is credited back: the credit passes the freeze/pause gate bound to the input\'s own return-after-error flag.'),
+ 'C02': ('; cut of the user-key write by the protected-prefix test on the very key written (shared with C03-R6)',
+         ' SaveKeyValue cannot write a balance entry.'),
+ 'C05': ('; loop obligation: a turn of the write loop reaches the next one only through the write or through the stored-equals-listed edge',
+         ' Every listed pair is stored (or already is what is stored): no pair is dropped for another reason.'),
+ 'C07': ('; no error exit reachable from the successful counter write',
+         ' The counter is advanced last: nothing can refuse the create once the counter write has succeeded.'),
+ 'C08': ('; must-pass-through of the function\'s own change (append of the URIs / replacement of the attributes) on every successful path, per call level, under the argument-count facts of the call; dead-branch pruning per calling context',
+         ' ESDTNFTAddURI / ESDTNFTUpdateAttributes cannot succeed without having made their change (empty attributes are attributes).'),
+ 'C11': ('; the premise of totality on stored entries: no caller-chosen bytes under a protocol key (shared with C03-R6)',
+         ' Also claimed: SaveKeyValue cannot plant an entry under a protocol key (a planted entry with a nil Value panics in the next function that reads it).'),
+ 'C13': ('; shared-big.Int rule over the package-level values of every package of the module',
+         ''),
+ 'C14': ('; constant folding of the varint size function over the 64 bit lengths against ceil(L/7); entailment of the reader\'s length classes (nil exactly under len == 1, a number under len >= 2) from the facts at each return',
+         ' The varint size function equals ceil(bits/7) for every bit length; one byte decodes to nil and nothing else does.'),
+ 'C15': ('; flag exception of the zero-balance rule only under the token-level key; whole-entry provenance of shipped / credited entries (shared with C08-R2)',
+         ' Under a key with a nonce part an entry without balance is deleted whatever its flags; the entry shipped or credited is the holder\'s entry as a whole (Type travels with the metadata).'),
+ 'C17': ('; for every sentinel tolerated with errors.Is on a carrier call: no block of the carrier entered through a dependency\'s failure edge loads that sentinel',
+         ' A dependency failure is never reported as (or wrapped into) a sentinel that a caller tolerates.'),
+ 'C20': ('; shift-accumulate width rule over the root package; in-place writes into objects found in the result\'s own collections (adopted by pointer from earlier merges)',
+         ' No classifier folds an identifier into a fixed-width word without a length bound; a merge never rewrites in place an object it may have adopted from an account merged in earlier.'),
+}
+for pid, (t, x) in EXTRA2.items():
+    CLAIMED[pid]['technique'] += t
+    CLAIMED[pid]['text'] += x
 NA = {}
 for i in range(1, 21):
     pid = 'C%02d' % i
